@@ -776,9 +776,15 @@ def r6(ctx, parent, tasks_expr, worker):
     hi_defs = _defs(parent.node, hi)
     n = 0
     rng = {}
+    tail = []          # values appended / concatenated after the range
     for nm, defs in ((lo, lo_defs), (hi, hi_defs)):
         for d in defs:
             v = d.value
+            if isinstance(v, ast.BinOp) and isinstance(v.op, ast.Add) and \
+                    isinstance(v.right, ast.List) and \
+                    len(v.right.elts) == 1 and nm == hi:
+                tail.append(v.right.elts[0])
+                v = v.left
             if isinstance(v, ast.Call) and norm(v.func) == "list" and v.args:
                 v = v.args[0]
             if isinstance(v, ast.Call) and norm(v.func) == "range" and \
@@ -788,21 +794,23 @@ def r6(ctx, parent, tasks_expr, worker):
                 rng.setdefault(nm + "_single", norm(v.elts[0]))
     apps = [c for c in walk_no_nested(parent.node) if isinstance(c, ast.Call)
             and norm(c.func) == hi + ".append"]
-    if lo not in rng or hi not in rng or len(apps) != 1:
+    lasts = [c.args[0] for c in apps if c.args] + tail
+    if lo not in rng or hi not in rng or len(lasts) != 1:
         raise AnalysisError("C07-R6: tiling idiom not recognised "
-                            "(lo=%s hi=%s append=%s)" %
+                            "(lo=%s hi=%s last=%s)" %
                             (rng.get(lo), rng.get(hi),
-                             [norm(a) for a in apps]))
+                             [norm(a) for a in lasts]))
     l0, lH, lw = rng[lo]
     h0, hH, hw = rng[hi]
     ok = l0 == "0" and h0 == lw and lw == hw and lH == hH and \
-        norm(apps[0].args[0]) == lH
+        norm(lasts[0]) == lH
     n += 1
     ctx.check("C07-R6", parent, "stripe bounds %s=range(%s,%s,%s) "
               "%s=range(%s,%s,%s)+[%s]" % (lo, l0, lH, lw, hi, h0, hH, hw,
-                                           norm(apps[0].args[0])), ok,
+                                           norm(lasts[0])), ok,
               "stripe k must end where stripe k+1 starts, the first start at "
-              "0 and the last end at the image height", node=apps[0])
+              "0 and the last end at the image height",
+              node=apps[0] if apps else parent.node)
     s_lo, s_hi = rng.get(lo + "_single"), rng.get(hi + "_single")
     if s_lo is not None or s_hi is not None:
         ctx.check("C07-R6", parent, "single stripe [%s],[%s]" % (s_lo, s_hi),
